@@ -130,7 +130,7 @@ func c02Origins(a *An, df *DecodeFacts, tr *extracted, trCall *Visit, hctx *Ctx)
 				continue
 			}
 			n++
-			ok2 := isReader && v.Ctx.Parent == nil && len(df.SendCalls) == 1 && call == df.SendCalls[0]
+			ok2 := isReader && v.Ctx.Fn == df.LoopFn && v.Ctx.Depth == len(df.Chain) && len(df.SendCalls) == 1 && call == df.SendCalls[0]
 			why := "the decode loop's send of the handler result"
 			if !ok2 {
 				arg := call.Call.Args[len(call.Call.Args)-1]
@@ -159,7 +159,10 @@ func c02Origins(a *An, df *DecodeFacts, tr *extracted, trCall *Visit, hctx *Ctx)
 		a.R.fail("anchor unresolved: string (name) operand of the translator call")
 		return
 	}
-	nameEdges := valueEdges(hctx, nameArg, dnfTrue())
+	// sources of the name under the condition in which the translator is reached (a helper returning (watch, name) yields
+	// "" together with a nil watch; that source is not live here)
+	nameEdges := valueEdges(trCall.Ctx, nameArg, trCall.Cond)
+	_ = hctx
 	wdTbl, pathFld := "wd", "path"
 	if tf := findTables(a); tf != nil {
 		wdTbl = tf.wdTable.Name()
